@@ -123,3 +123,49 @@ def spec_settings(static, witness, base_prefix="b"):
     if b is not None:
         st["RELATIVE_BASE"] = b
     return st
+
+
+# ------------------------------------------------------------------------------------------------ shipped vocabulary
+_LANG_CACHE = {}
+
+
+def repo_path(*p):
+    import os
+    from symx import runner
+    return os.path.join(runner.REPO, *p)
+
+
+def language_info(lang):
+    """the `info` dict of a language data module, read from the repository's source with ast (no import)"""
+    import ast
+    if lang not in _LANG_CACHE:
+        src = open(repo_path("dateparser", "data", "date_translation_data", lang + ".py"),
+                   encoding="utf-8").read()
+        tree = ast.parse(src)
+        node = [n for n in tree.body if isinstance(n, ast.Assign) and n.targets[0].id == "info"][0]
+        _LANG_CACHE[lang] = ast.literal_eval(node.value)
+    return _LANG_CACHE[lang]
+
+
+def languages_index():
+    """(language_order, language_locale_dict) read from dateparser/data/languages_info.py with ast"""
+    import ast
+    if "_index" not in _LANG_CACHE:
+        tree = ast.parse(open(repo_path("dateparser", "data", "languages_info.py"), encoding="utf-8").read())
+        vals = {}
+        for n in tree.body:
+            if isinstance(n, ast.Assign) and isinstance(n.targets[0], ast.Name):
+                try:
+                    vals[n.targets[0].id] = ast.literal_eval(n.value)
+                except ValueError:
+                    pass
+        _LANG_CACHE["_index"] = (vals["language_order"], vals["language_locale_dict"])
+    return _LANG_CACHE["_index"]
+
+
+def locale_date_order(lang, locale=None):
+    info = language_info(lang)
+    order = info.get("date_order")
+    if locale and locale != lang:
+        order = info.get("locale_specific", {}).get(locale, {}).get("date_order", order)
+    return order
